@@ -614,20 +614,13 @@ void f_unique_mapping (void) {
         }
     }
 
-  m = allocate_mapping (nmask = numkeys << 1);
+  m = allocate_mapping (numkeys << 1);
   mtable = m->table;
   numkeys = 0;
 
-  if (nmask > MAP_HASH_TABLE_SIZE)
-    {
-      nmask |= nmask >> 1;
-      nmask |= nmask >> 2;
-      nmask |= nmask >> 4;
-      if (size & 0xff00)
-        nmask |= nmask >> 8;
-    }
-  else
-    nmask = MAP_HASH_TABLE_SIZE - 1;
+  /* the mask of the table that was allocated: allocate_mapping() holds its size
+   * hint to MaxMappingSize, a mask worked out here from the hint can be wider */
+  nmask = m->table_size;
   j = mask;
   sv = v->item;
 
@@ -645,8 +638,8 @@ void f_unique_mapping (void) {
                   if (growMap (m))
                     {
                       mtable = m->table;
-                      nmask <<= 1;
-                      nmask--;
+                      nmask = m->table_size;
+                      i = oi & nmask;
                     }
                   else
                     {
